@@ -3,6 +3,7 @@ package main
 // C01 — stanza encode/decode round trip preserves every field; text never injects XML.
 
 import (
+	"os"
 	"fmt"
 	"go/types"
 	"regexp"
@@ -325,6 +326,103 @@ func runC01(w *World, r *Report, tier string) {
 				}
 			})
 			r.Check(assigned, "R6", cons, w.pos(fn.Pos()), "the hand-written decoder never assigns this interface-typed field", "assigned by UnmarshalXML")
+			// a decoder that tells the implementations apart by element name has a case for every one of them: what
+			// can be written into the field can be read back
+			if st, ok := T.Underlying().(*types.Struct); ok && assigned && !strings.Contains(p, ".") {
+				var ft types.Type
+				for i := 0; i < st.NumFields(); i++ {
+					if st.Field(i).Name() == p {
+						ft = st.Field(i).Type()
+					}
+				}
+				if sl, isSl := ft.(*types.Slice); isSl {
+					ft = sl.Elem()
+				}
+				nt, _ := ft.(*types.Named)
+				if nt == nil {
+					continue
+				}
+				it, isI := nt.Underlying().(*types.Interface)
+				if !isI || it.NumMethods() == 0 {
+					continue
+				}
+				dt := w.decodeTablesOf(fn)
+				typed := map[string]string{} // implementation → case name
+				for dn, ds := range dt.Children {
+					toField := false
+					for _, d := range ds {
+						if d == "field:"+p {
+							toField = true
+						}
+					}
+					for _, d := range ds {
+						if !strings.HasPrefix(d, "type:") {
+							continue
+						}
+						parts := strings.SplitN(strings.TrimPrefix(d, "type:"), "→", 2)
+						if len(parts) == 2 && (parts[1] == p || parts[1] == p+"[]" || (parts[1] == "" && toField)) {
+							typed[parts[0]] = dn
+						}
+					}
+				}
+				if os.Getenv("XDEBUG") == "5" {
+					fmt.Fprintf(os.Stderr, "R6 %s.%s children=%v\n", tn, p, dt.Children)
+				}
+				if len(typed) == 0 {
+					// resolved through the extension registry or the packet dispatcher, not by named cases — or through
+					// some private table, about which nothing is known
+					viaRegistry := false
+					allInstrsH(fn, func(in ssa.Instruction) {
+						if c := asCall(in); c != nil {
+							k := w.callKey(c)
+							if strings.HasPrefix(k, "stanza.registry.Get") || k == "stanza.decodeClient" || k == "stanza.NextPacket" || strings.HasPrefix(k, "stanza.decode") {
+								viaRegistry = true
+							}
+						}
+					})
+					if !viaRegistry {
+						r.Undecided("R6", cons+"#every-implementation", w.pos(fn.Pos()), "the decoder assigns this interface-typed field neither by named cases nor through the extension registry: it cannot be established that every implementation that can be written can be read back")
+					}
+					continue
+				}
+				// the implementations in question: those declared next to the ones the decoder does handle (Go's
+				// structural typing makes unrelated types implement small interfaces by accident — every packet has a
+				// Name() — so the candidates are the siblings, file by file, of the handled types)
+				handledFiles := map[string]bool{}
+				for tnm := range typed {
+					if o := w.Pkgs["stanza"].Types.Scope().Lookup(strings.TrimPrefix(tnm, "stanza.")); o != nil {
+						handledFiles[w.Fset.Position(o.Pos()).Filename] = true
+					}
+				}
+				var missing []string
+				nImpl := 0
+				for _, X := range w.implementers(it) {
+					xn, ok := X.(*types.Named)
+					if pt, isP := X.(*types.Pointer); isP {
+						xn, ok = pt.Elem().(*types.Named)
+					}
+					if !ok || xn.Obj().Pkg() == nil || xn.Obj().Pkg().Path() != pkgStanza {
+						continue
+					}
+					if _, isStruct := xn.Underlying().(*types.Struct); !isStruct {
+						continue
+					}
+					_, lo, has := xmlNameTag(xn)
+					if !has {
+						continue // (types without an element name of their own are R5's business)
+					}
+					if !handledFiles[w.Fset.Position(xn.Obj().Pos()).Filename] {
+						continue
+					}
+					nImpl++
+					key := "stanza." + xn.Obj().Name()
+					if _, ok := typed[key]; !ok {
+						missing = append(missing, fmt.Sprintf("%s (<%s>)", key, lo))
+					}
+				}
+				sort.Strings(missing)
+				r.Check(len(missing) == 0, "R6", cons+"#every-implementation", w.pos(fn.Pos()), fmt.Sprintf("the field can hold %d element types but the decoder has no case for %v: such a value is serialised and then fails to parse (or is dropped)", nImpl, missing), fmt.Sprintf("%d implementations, one decode case each", nImpl))
+			}
 		}
 	}
 
